@@ -5,7 +5,7 @@
    block without the decoder's helpers (TzData).  Non-vacuity: tzfile/TzExamples.v. *)
 From Coq Require Import ZArith List Bool.
 From V Require Import tzfile.TzModel tzfile.TzSpec tzfile.TzData tzfile.TzBisect tzfile.TzRenderThm
-  tzfile.TzDecodeThm tzfile.TzReportThm tzfile.TzParseThm tzfile.TzC06Thm tzfile.TzTotalThm tzfile.TzAnyThm tzfile.TzBeforeThm.
+  tzfile.TzDecodeThm tzfile.TzReportThm tzfile.TzParseThm tzfile.TzC06Thm tzfile.TzTotalThm tzfile.TzAnyThm tzfile.TzBeforeThm tzfile.TzEqThm.
 Import ListNotations.
 Open Scope Z_scope.
 
@@ -63,6 +63,18 @@ Theorem C06_wall_reading_any_spacing : forall r d u, build r = Ok d -> wf_data r
   exists f g isd ab, data_at r u = Some (g, isd, ab) /\ fromutc d u = Ok (u + g, f).
 Proof. exact reports_wall_any_lemma. Qed.
 Print Assumptions C06_wall_reading_any_spacing.
+
+(* tzfile.__eq__ (zone_eqb: _trans_list, the ttinfo of every transition, _ttinfo_list) determines
+   every lookup: decoded zones that compare equal behave identically *)
+Theorem C06_eq_zones_behave_same : forall r1 r2 d1 d2, build r1 = Ok d1 -> build r2 = Ok d2 ->
+  r_types r1 <> [] -> r_types r2 <> [] ->
+  length (r_idx r1) = length (r_times r1) -> length (r_idx r2) = length (r_times r2) ->
+  zone_eqb d1 d2 = true ->
+  forall x f, fromutc d1 x = fromutc d2 x /\ utcoffset d1 x f = utcoffset d2 x f /\ dst d1 x f = dst d2 x f /\
+    tzname d1 x f = tzname d2 x f /\ datetime_exists d1 x f = datetime_exists d2 x f /\
+    datetime_ambiguous d1 x = datetime_ambiguous d2 x /\ resolve_imaginary d1 x f = resolve_imaginary d2 x f.
+Proof. exact eq_zones_behave_same_lemma. Qed.
+Print Assumptions C06_eq_zones_behave_same.
 
 (* the model's binary search (CPython's bisect_right) on a sorted list counts the elements <= x *)
 Theorem C06_bisect_right_sorted : forall l x, sortedb l = true -> bisect_right l x = Some (count_le l x).
